@@ -375,6 +375,7 @@ def run_chunk(job):
                 if job.get("fat"):
                     cfg["pipe"] = dict(REAL_PIPE)  # big messages against the real pipe parameters
             plans.append((i, run_id, cfg))
+    abs_s, abs_t = set(), set()
     for j, (i, run_id, cfg) in enumerate(plans):
         r = wr.run_sim(repo, paths, cfg, keep_trace=False)
         d["runs"] += 1
@@ -429,6 +430,8 @@ def run_chunk(job):
             Stats.bump(d["mechanisms"], mechanism(r))
         if job.get("collect_digests"):
             d.setdefault("digests", []).append((run_id, r.digest))
+        abs_s.update(r.abs_states)
+        abs_t.update(r.abs_trans)
         sig = int(r.sig[:15], 16)
         d["sigs"].append(sig)
         if nontrivial(r):
@@ -451,6 +454,8 @@ def run_chunk(job):
                 )
         if len(d["samples"]) < 1 and j == 0 and chunk % 50 == 0:
             d["samples"].append(sample_of(run_id, wl, cfg, r))
+    d["abs_states"] = [shash(*t) for t in abs_s]
+    d["abs_trans"] = [shash(*(a + b)) for a, b in abs_t]
     d["wall"] = time.time() - t0
     return d
 
